@@ -152,6 +152,18 @@ impl<CS: CLCiphersuite> PoKSignature<CL03<CS>> {
         let min_x = Integer::from(0);
         let max_x = Integer::from(2).pow(CS::lm) - 1;
         let CLSPoK = self.to_cl03_proof();
+
+        // revealed attributes live in [0, 2^lm) like the hidden ones (which are range-proved):
+        // otherwise a proof made from (v * a_i^k, m_i + k*e), a "signature" derived without the
+        // secret key, verifies with the shifted attribute revealed
+        if messages
+            .iter()
+            .any(|m| m.value < min_x || m.value > max_x)
+        {
+            println!("Revealed attribute out of range!");
+            return false;
+        }
+
         let boolean_spok = NISPSignaturePoK::nisp5_MultiAttr_verify_proof::<CS>(
             &CLSPoK.spok,
             commitment_pk,
